@@ -56,6 +56,7 @@ structure DD extends D where
   /-- always-available mini-history (publisher switch): spec only through `pubStep` -/
   aa : Bool := false
   pub : PubSt := {}
+  rtp : RtpSt := {}
   nf : Nat := 0
   /-- configuration of the MPEG-4 Video format (format 3), tracked with C22's updater model -/
   cfg : Bytes := []
@@ -83,8 +84,33 @@ def stepAA (d : DD) (ws : List String) (impl : String) : DD × DrvOut :=
           else "FAIL the current publisher's unit was not delivered"
     ({ d with pub := r.1 }, { model, spec })
 
+def rtpAnswer (o : Option (List Nat)) : String :=
+  match o with
+  | some l => "got=" ++ "+".intercalate (l.map toString)
+  | none => "got=-"
+
+def stepRtp (d : DD) (ws : List String) (impl : String) : DD × DrvOut :=
+  if impl == "bad-op" then (d, { model := "bad-op" }) else
+  let ev : Option RtpEv := match ws with
+    | ["aapubr"] => some .pubr
+    | ["aaoff"] => some .off
+    | ["aartp", p, tag, m] => do pure (.rtp (← p.toNat?) (← tag.toNat?) (m == "1"))
+    | _ => none
+  match ev with
+  | none => (d, { model := "bad-op" })
+  | some ev =>
+    let r := rtpStep d.rtp ev
+    let model := match ev with | .off => "ok" | _ => rtpAnswer r.2
+    let verdict := if impl == model then "ok"
+      else "FAIL the unit handed to the readers is not the current publisher's (data of a previous publisher / missing data): " ++ (impl.take 60).toString
+    ({ d with rtp := r.1 }, { model, spec := verdict })
+
 def stepD (d : DD) (op impl : String) : DD × DrvOut :=
   match words op with
+  | ["reset", _cap, _nf, "aah"] => ({ aa := true }, { model := "ok" })
+  | "aapubr" :: _ => stepRtp d (words op) impl
+  | "aartp" :: _ => stepRtp d (words op) impl
+  | ["aaoff"] => stepRtp d (words op) impl
   | ["reset", _cap, _nf, "aa"] => ({ aa := true }, { model := "ok" })
   | "aapub" :: _ => stepAA d (words op) impl
   | "aawrite" :: _ => stepAA d (words op) impl
